@@ -1,4 +1,248 @@
 package explore
 
-// placeholder, replaced below
-func WorkerBFS(name, arg string) {}
+import (
+	"bufio"
+	"crypto/sha1"
+	"encoding/json"
+	"fmt"
+	"io"
+	"os"
+	"os/exec"
+	"strings"
+	"sync"
+	"time"
+)
+
+// HistResult is what executing one operation history on a fresh broker produced.
+type HistResult struct {
+	Key      string         `json:"key"`  // canonical state after the last op (broker + harness + monitor state)
+	Next     []string       `json:"next"` // operations enabled in that state
+	Viol     []Violation    `json:"viol"`
+	Counters map[string]int `json:"counters,omitempty"`
+	Trace    []string       `json:"trace,omitempty"`
+}
+
+// HistFn executes hist on a fresh world (replay + monitors) and reports the final state.
+type HistFn func(hist []string) HistResult
+
+var bfsScenarios = map[string]func(arg string) HistFn{}
+
+// RegisterBFS names a history scenario.
+func RegisterBFS(name string, mk func(arg string) HistFn) { bfsScenarios[name] = mk }
+
+// WorkerBFS serves history executions over stdin/stdout (one JSON document per line).
+func WorkerBFS(name, arg string) {
+	mk := bfsScenarios[name]
+	if mk == nil {
+		panic("unknown BFS scenario " + name)
+	}
+	run := mk(arg)
+	in := bufio.NewReaderSize(os.Stdin, 1<<20)
+	out := bufio.NewWriterSize(os.Stdout, 1<<20)
+	for {
+		line, err := in.ReadBytes('\n')
+		if len(line) > 0 {
+			var hist []string
+			if e := json.Unmarshal(line, &hist); e != nil {
+				panic(e)
+			}
+			r := run(hist)
+			h := sha1.Sum([]byte(r.Key))
+			r.Key = fmt.Sprintf("%x", h[:12])
+			b, _ := json.Marshal(r)
+			out.Write(b)
+			out.WriteByte('\n')
+			out.Flush()
+		}
+		if err != nil {
+			return
+		}
+	}
+}
+
+// BFSStats summarises a state-space search.
+type BFSStats struct {
+	States      int64
+	Transitions int64
+	MaxDepth    int
+	Complete    bool
+	Counters    map[string]int64
+	Samples     [][]string
+	PerDepth    []int64
+}
+
+type bfsWorker struct {
+	cmd *exec.Cmd
+	in  io.WriteCloser
+	out *bufio.Reader
+}
+
+func (w *bfsWorker) call(hist []string) (HistResult, error) {
+	b, _ := json.Marshal(hist)
+	if _, err := w.in.Write(append(b, '\n')); err != nil {
+		return HistResult{}, err
+	}
+	line, err := w.out.ReadBytes('\n')
+	if err != nil {
+		return HistResult{}, err
+	}
+	var r HistResult
+	err = json.Unmarshal(line, &r)
+	return r, err
+}
+
+// RunBFS explores all states reachable in scenario name/arg (explicit-state search with
+// canonical-state deduplication; each transition is an execution of the real broker).
+// maxDepth<=0: unbounded (scenario pools make the space finite).
+func RunBFS(c *Ctx, name, arg string, maxDepth int, budget time.Duration) *BFSStats {
+	st := &BFSStats{Complete: true, Counters: map[string]int64{}}
+	if f := os.Getenv("VERIF_SCEN"); f != "" && !strings.Contains(name+":"+arg, f) {
+		return st
+	}
+	deadline := time.Now().Add(budget)
+	if deadline.After(c.Deadline) {
+		deadline = c.Deadline
+	}
+	exe, _ := os.Executable()
+	n := c.Workers
+	type item struct {
+		hist []string
+	}
+	var mu sync.Mutex
+	cond := sync.NewCond(&mu)
+	seen := map[string]bool{}
+	queue := []item{{nil}}
+	inflight := 0
+	stopped := false
+	addViol := func(v Violation, hist []string) {
+		v.Replay = map[string]any{"bfs": name, "arg": arg, "hist": hist, "extra": v.Replay}
+		c.Rep.Add(v)
+	}
+	var wg sync.WaitGroup
+	for i := 0; i < n; i++ {
+		wg.Add(1)
+		go func(i int) {
+			defer wg.Done()
+			cmd := exec.Command(exe, "worker-bfs", name, arg)
+			cmd.Env = append(os.Environ(), "GOMAXPROCS=2")
+			cmd.Stderr = os.Stderr
+			in, _ := cmd.StdinPipe()
+			outp, _ := cmd.StdoutPipe()
+			if err := cmd.Start(); err != nil {
+				c.Rep.Add(Violation{Key: "internal:worker-failed", Msg: err.Error()})
+				return
+			}
+			w := &bfsWorker{cmd: cmd, in: in, out: bufio.NewReaderSize(outp, 1<<20)}
+			defer func() { in.Close(); cmd.Wait() }()
+			for {
+				mu.Lock()
+				for len(queue) == 0 && inflight > 0 && !stopped {
+					cond.Wait()
+				}
+				if stopped || (len(queue) == 0 && inflight == 0) {
+					mu.Unlock()
+					cond.Broadcast()
+					return
+				}
+				it := queue[0]
+				queue = queue[1:]
+				inflight++
+				mu.Unlock()
+
+				r, err := w.call(it.hist)
+
+				mu.Lock()
+				inflight--
+				if err != nil {
+					stopped = true
+					st.Complete = false
+					mu.Unlock()
+					cond.Broadcast()
+					c.Rep.Add(Violation{Key: "internal:worker-failed", Msg: fmt.Sprintf("bfs worker %s/%s died on history %v: %v", name, arg, it.hist, err), Replay: map[string]any{"bfs": name, "arg": arg, "hist": it.hist}})
+					return
+				}
+				st.Transitions++
+				for k, v := range r.Counters {
+					st.Counters[k] += int64(v)
+				}
+				for _, v := range r.Viol {
+					if v.Trace == nil {
+						v.Trace = r.Trace
+					}
+					addViol(v, it.hist)
+				}
+				if !seen[r.Key] {
+					seen[r.Key] = true
+					st.States++
+					d := len(it.hist)
+					for len(st.PerDepth) <= d {
+						st.PerDepth = append(st.PerDepth, 0)
+					}
+					st.PerDepth[d]++
+					if d > st.MaxDepth {
+						st.MaxDepth = d
+					}
+					if len(st.Samples) < 3 || (d >= 4 && len(st.Samples) < 6) {
+						st.Samples = append(st.Samples, it.hist)
+					}
+					if maxDepth <= 0 || d < maxDepth {
+						for _, op := range r.Next {
+							h := make([]string, d+1)
+							copy(h, it.hist)
+							h[d] = op
+							queue = append(queue, item{h})
+						}
+					}
+				}
+				if time.Now().After(deadline) && (len(queue) > 0) {
+					stopped = true
+					st.Complete = false
+				}
+				mu.Unlock()
+				cond.Broadcast()
+			}
+		}(i)
+	}
+	wg.Wait()
+	c.Rep.Count("states", st.States)
+	c.Rep.Count("transitions", st.Transitions)
+	c.Rep.Count("traces_validated_against_impl", st.Transitions)
+	c.Rep.mu.Lock()
+	sc, _ := c.Rep.Cov["scenarios"].([]any)
+	c.Rep.Cov["scenarios"] = append(sc, map[string]any{"scenario": name, "arg": arg, "states": st.States, "transitions": st.Transitions,
+		"max_depth": st.MaxDepth, "states_per_depth": st.PerDepth, "complete": st.Complete, "depth_limit": maxDepth, "counters": st.Counters})
+	c.Rep.mu.Unlock()
+	for _, s := range st.Samples {
+		c.Rep.Sample(map[string]any{"scenario": name, "arg": arg, "history": s})
+	}
+	if !st.Complete {
+		c.Rep.Capped(fmt.Sprintf("%s/%s: search stopped at %d states, %d transitions (deepest fully expanded level < %d)", name, arg, st.States, st.Transitions, st.MaxDepth))
+	}
+	return st
+}
+
+// ReplayBFS re-executes a recorded history.
+func replayBFS(name, arg string, hist []string, key string) int {
+	mk := bfsScenarios[name]
+	if mk == nil {
+		fmt.Println("unknown scenario", name)
+		return 2
+	}
+	r := mk(arg)(hist)
+	for _, t := range r.Trace {
+		fmt.Println("   ", t)
+	}
+	hit := false
+	for _, v := range r.Viol {
+		fmt.Printf("  violation key=%s: %s\n", v.Key, v.Msg)
+		if v.Key == key {
+			hit = true
+		}
+	}
+	if hit {
+		fmt.Println("REPRODUCED")
+		return 1
+	}
+	fmt.Println("not reproduced")
+	return 0
+}
